@@ -94,6 +94,11 @@ TypeOK == /\ d \in {0, 1}
           /\ kind = "batch" => \A i \in DOMAIN inp : inp[i] \in All
           /\ kind = "normal" => HasIntLen(inp)
 
+\* frame conditions of every call: the inputs (Euler arrays, Rotation objects, tables of normals) are left as they are and
+\* can be reused; a result, once returned, is not changed by later calls (nothing happens after d = 1)
+C06_InputsUntouched == [][inp' = inp /\ kind' = kind]_vars
+C06_ResultsPersist == [][d = 1 => out' = out]_vars
+
 C06_AngDistRange == IsPair => out.ang \in 0..180
 
 C06_AngDistSymmetric == IsPair => out.ang = AngDist(inp[2], inp[1])
